@@ -59,6 +59,8 @@ def run(ctx):
     rep.floor('sqrt functions', len(fns), 6)
     n1, n2 = roots.sign_and_ctx_rules(rep, F, fns)
     n3 = sign_tables(rep, F, fns)
+    nkg = roots.kernel_gates(rep, F, r'sqrt')
+    rep.floor('kernel gateways', nkg, 1)
     n4 = S.sticky(rep, F, fns)
     S.radicand_exact(rep, F, fns)
     rep.floor('PROV-CTX final sinks', n1, 5)
